@@ -280,12 +280,11 @@ func (db *DB) Delete(key []byte) error {
 func (db *DB) ListKeys() [][]byte {
 	iterator := db.index.Iterator(false)
 	defer iterator.Close()
-	keys := make([][]byte, db.index.Size())
-	var idx int
+	// 迭代器遍历的是创建时的快照, 不能用此刻的索引大小确定结果长度
+	keys := make([][]byte, 0, db.index.Size())
 	// 直接通过迭代器遍历获取所有 key
 	for iterator.Rewind(); iterator.Valid(); iterator.Next() {
-		keys[idx] = iterator.Key()
-		idx++
+		keys = append(keys, iterator.Key())
 	}
 	return keys
 }
